@@ -3,8 +3,10 @@ package main
 import (
 	"bytes"
 	"fmt"
+	"net"
 	"sort"
 	"sync"
+	"time"
 
 	"github.com/netflix/rend/common"
 	"github.com/netflix/rend/handlers/memcached/cluster"
@@ -33,6 +35,7 @@ func c19n(e *env) {
 		var addrs []string
 		byAddr := map[string]*fakemc.Server{}
 		var closers []func()
+		var listeners []net.Listener
 		for i := 0; i < n; i++ {
 			f := fakemc.New()
 			f.LogOn = false
@@ -43,6 +46,7 @@ func c19n(e *env) {
 			fakes = append(fakes, f)
 			addrs = append(addrs, l.Addr().String())
 			byAddr[l.Addr().String()] = f
+			listeners = append(listeners, l)
 			ll, ff := l, f
 			closers = append(closers, func() { ll.Close(); ff.CloseAll() })
 		}
@@ -112,6 +116,58 @@ func c19n(e *env) {
 			}
 			w.Count("key-probe")
 		}
+		// a node refuses connections exactly while a new client connection builds its handler: that
+		// connection is refused as a whole, or it routes like every other connection - never on a
+		// ring of its own
+		if n >= 3 {
+			down := r.Intn(n)
+			lsn := listeners[down]
+			lsn.Close()
+			hB, errB := cluster.NewHandler(addrs, "c19n-down")
+			nl, lerr := fakes[down].ListenTCPAt(addrs[down])
+			for try := 0; lerr != nil && try < 50; try++ {
+				time.Sleep(20 * time.Millisecond)
+				nl, lerr = fakes[down].ListenTCPAt(addrs[down])
+			}
+			if lerr != nil {
+				rig.Die("re-listen on %s: %v", addrs[down], lerr)
+			}
+			listeners[down] = nl
+			closers = append(closers, func() { nl.Close() })
+			if errB == nil {
+				w.Count("handler-built-while-a-node-was-down")
+				miss := 0
+				var first string
+				for k := 0; k < 200; k++ {
+					key := []byte(fmt.Sprintf("down-%d-%d", n, k))
+					val := []byte("v-" + string(key))
+					if err := hB.Set(common.SetRequest{Key: key, Data: val}); err != nil {
+						continue // an error is an honest outcome
+					}
+					dc, ec := hs[0].Get(common.GetRequest{Keys: [][]byte{key}, Opaques: []uint32{1}, Quiet: []bool{false}})
+					hit := false
+					for g := range dc {
+						if !g.Miss && bytes.Equal(g.Data, val) {
+							hit = true
+						}
+					}
+					for range ec {
+					}
+					if !hit {
+						miss++
+						if first == "" {
+							first = string(key)
+						}
+					}
+				}
+				if miss > 0 {
+					w.Fail(rig.GoFailure{Kind: "counterexample", What: "a client connection whose cluster handler was built while one node refused connections routes keys differently from the other connections of the same proxy: what it stores they do not find",
+						Input: map[string]interface{}{"cmd": "c19n", "nodes": n, "node_down_during_setup": down}, Detail: fmt.Sprintf("%d of 200 keys acknowledged through the new connection are misses through an older one (first: %q)", miss, first)})
+				}
+			} else {
+				w.Count("handler-refused-while-a-node-was-down")
+			}
+		}
 		// several client connections (each with its own cluster handler over the same node set)
 		// route keys at the same time: every lookup is still the function of key and node set
 		if n >= 2 {
@@ -172,7 +228,7 @@ func c19n(e *env) {
 		w.Count(fmt.Sprintf("nodes=%d", n))
 		w.Add(rig.Case{Desc: in, Coq: "tt", Nontrivial: n >= 2})
 	}
-	w.Res.Rule = "cluster.NewHandler over 1..8 (thorough ..32) fake memcached nodes on loopback TCP, three handler instances per node set (as listed, permuted, as listed again): bucket labels = configured addresses; each of 150 (1000) keys set through the first instance is stored on exactly the node the reference lookup over the instance's ring names and is a hit through the other two instances; then 12 connections with their own handlers route 4000 keys each at the same time (every lookup equals the reference lookup); Go-side oracles only"
+	w.Res.Rule = "cluster.NewHandler over 1..8 (thorough ..32) fake memcached nodes on loopback TCP, three handler instances per node set (as listed, permuted, as listed again): bucket labels = configured addresses; each of 150 (1000) keys set through the first instance is stored on exactly the node the reference lookup over the instance's ring names and is a hit through the other two instances; then 12 connections with their own handlers route 4000 keys each at the same time (every lookup equals the reference lookup); for >= 3 nodes a handler is built while one node refuses connections (refused as a whole, or it must route like the others: 200 keys stored through it are read through an older handler); Go-side oracles only"
 	if err := w.Finish([]string{"base.Bytes", "base.Harness"}, "unit", "(fun _ => 0%N)"); err != nil {
 		rig.Die("%v", err)
 	}
